@@ -79,7 +79,7 @@ func GenFloatLit(r *rand.Rand) *Literal {
 	return &Literal{Kind: LFloat, Text: text, Val: v}
 }
 
-var strPieces = []string{"", "a", "ab", "x", "hello", " ", "  ", "\t", "#", ";", "(", ")", "{", "}", "é", "漢字", "😀", "\u0085", "\u00a0", "\r", "\v", "\f",
+var strPieces = []string{"TYPE", "NAME", "", "a", "ab", "x", "hello", " ", "  ", "\t", "#", ";", "(", ")", "{", "}", "é", "漢字", "😀", "\u0085", "\u00a0", "\r", "\v", "\f",
 	"\"", "\\", "\n", "'", "=", "# not a comment", "var", "0", "1", "-1", "1.5", "true", "nil", "\x00", "\x7f", "%d", "%s"}
 
 // GenStrValue draws a string value (valid UTF-8).
@@ -251,7 +251,7 @@ func (g *Gen) literal(want Kind) *Expr {
 		if g.Cfg.HostileLits {
 			return Lit(SpellStr(r, GenStrValue(r), true))
 		}
-		return Lit(StrLit([]string{"", "a", "ab", "xyz", "hello world", "é", "1.5", "2.5"}[r.Intn(8)]))
+		return Lit(StrLit([]string{"", "a", "ab", "xyz", "hello world", "é", "1.5", "2.5", "TYPE", "NAME"}[r.Intn(10)]))
 	case KBool:
 		return Lit(BoolLit(r.Intn(2) == 0))
 	}
@@ -722,7 +722,7 @@ func CfgScope() GenCfg {
 
 func CfgBlocks() GenCfg {
 	return GenCfg{MaxStmts: 9, MaxBody: 6, ExprDepth: 2, MaxNest: 4, Names: []string{"f", "g", "h", "TYPE", "NAME", "blk", "sub"},
-		Types: []string{"blk", "sub", "srv", "f"}, BlockNames: []string{"", "", "a", "b", "x y", "q\"uo", "é", "1.5", "2.5", "a.", "x.y.", "b", "0.5", "."}, ErrPct: 4, ParenPct: 3, AssignPct: 4,
+		Types: []string{"blk", "sub", "srv", "f"}, BlockNames: []string{"", "", "a", "b", "x y", "q\"uo", "é", "1.5", "2.5", "a.", "x.y.", "b", "0.5", ".", "NAME", "TYPE"}, ErrPct: 4, ParenPct: 3, AssignPct: 4,
 		HostileLits: true, WVar: 2, WPrint: 1, WEval: 1, WExpr: 8, WDef: 6, WBind: 0}
 }
 
